@@ -28,7 +28,7 @@ CHECKS = {
         note="intraprocedural; guards matched by dominance of an ordering comparison on the same value class (under-approximate once any comparison is seen)",
         ref="DESIGN.md section 3 C01"),
     "C09": dict(
-        technique="must-pass-through rules on MIR for the carry-over buffer and the consumed-byte contract, plus the shared container/EOF classification rules; must-pass-through of the tail move between a feed_bytes call and the next read in the library's own read loops; must-pass-through of the buffer-offset commit after every drain of the carry-over buffer; reachability walk (block x {parsed, appended, initialised, error}) of the jbrd header retry",
+        technique="must-pass-through rules on MIR for the carry-over buffer and the consumed-byte contract, plus the shared container/EOF classification rules; must-pass-through of the tail move between a feed_bytes call and the next read in the library's own read loops; must-pass-through of the buffer-offset commit after every drain of the carry-over buffer; reachability walk (block x {parsed, appended, initialised, error}) of the jbrd header retry; provenance of the preview completeness test in try_init (position read after the preview frame header)",
         text="Claimed narrowly: the plumbing that makes a chunk boundary invisible (each a necessary condition): the public feed functions "
              "return the parser's consumed-byte count; the frame loader re-stores the unconsumed remainder on every successful exit after "
              "it consumed bytes; the box-header parser is prefix-closed; aux boxes are finalised at end of input; end-of-data is classified "
@@ -103,7 +103,7 @@ CHECKS = {
         note="affine forms with rational coefficients; an arm that is not straight-line affine arithmetic is reported as not evaluable (fail closed)",
         ref="DESIGN.md section 3 C15"),
     "C16": dict(
-        technique="dispatch-table extraction from the discriminant switch of three sibling dispatchers (resolved callees + const generic arguments) and comparison with the format's table; literal secant vectors of the in-register DCT8 kernels compared with the formula, and a contradiction rule (forward and inverse cannot share one table provider); evaluation of the generic scalar 1-D DCT from MIR (n = 2 .. 256, both directions) against the mathematical definition",
+        technique="dispatch-table extraction from the discriminant switch of three sibling dispatchers (resolved callees + const generic arguments) and comparison with the format's table; literal secant vectors of the in-register DCT8 kernels compared with the formula, and a contradiction rule (forward and inverse cannot share one table provider); evaluation of the generic scalar 1-D DCT from MIR (n = 2 .. 256, both directions) against the mathematical definition; evaluation of the generic Hornuss transform from MIR against its definition",
         text="Claimed narrowly: every one of the 27 transform types has a handler, and the generic, SSE2 and SSE4.1 dispatchers route each "
              "type to the corresponding kernel family with the same const generic argument (e.g. Dct8x4 -> dct4x8<true>, Afv2 -> afv<2>); "
              "and the generic scalar 1-D DCT (the recursive kernel behind every block size) equals the mathematical definition for "
@@ -130,7 +130,7 @@ CHECKS = {
         note="the ANS mask / table-size agreement is decided under C02 (R-UNSAFE-b); alias-table construction, prefix lookup tables and hybrid-integer expansion are not decided",
         ref="DESIGN.md section 8.9"),
     "C19": dict(
-        technique="comparison of rustc-evaluated colour constants and recognition tables with references transcribed from the cited standards or derived by formula; writer/reader agreement of the cicp tag layout (offset, element index, codes) extracted from MIR; backward data-flow slice of the recovered chromaticities (no range-limiting operation); sibling agreement of the sign handling in the two scalar directions of each transfer curve; path independence of the TRC-presence store from the curve-recognition store in detect_profile_info; decision table of EnumColourEncoding::cicp over the enum values (abstract evaluation of MIR); evaluation of the scalar transfer functions from MIR against the curves of the cited standards",
+        technique="comparison of rustc-evaluated colour constants and recognition tables with references transcribed from the cited standards or derived by formula; writer/reader agreement of the cicp tag layout (offset, element index, codes) extracted from MIR; backward data-flow slice of the recovered chromaticities (no range-limiting operation); sibling agreement of the sign handling in the two scalar directions of each transfer curve; path independence of the TRC-presence store from the curve-recognition store in detect_profile_info; decision table of EnumColourEncoding::cicp over the enum values (abstract evaluation of MIR); evaluation of the scalar transfer functions from MIR against the curves of the cited standards; evaluation of the chromatic adaptation matrix from MIR against the Bradford transform",
         text="Claimed narrowly: the named colour constants. Chromaticities of the enumerated white points and primaries, the Bradford "
              "matrix and its inverse, the HLG and PQ constants equal the values of the cited standards, and the ICC parser's recognition "
              "tables map the same chromaticities to the same enum values the synthesiser writes. Does not decide anything numerical about "
